@@ -8,7 +8,16 @@
                      sel   = - | i:v,i:v         (position in the last view : value, in numpy's order)
               | S!<name>!<vs>              rec[name] = vs      vs = - | v,v,v
               | C!<sfmt>!<cols>!<plain>    rec.copy_fields_from(source)   plain = - | <name>=v,v,v|...
-     -> <step>;<step>...   step = ok|err:E @ <cols> @ <name>=v,v,..|...   (state after the step; values read per sub-field) *)
+     -> <step>;<step>...   step = ok|err:E @ <cols> @ <name>=v,v,..|...   (state after the step; values read per sub-field)
+
+   sf_world <wop>;<wop>;...          several record objects over shared memory (Model/SubFieldRec.v, wrun from the empty world)
+        wop   = N!<fmt>!<cols>             a record with memory of its own
+              | L!<a>!<chain>              a view of object a (chain as above; - = all of it)
+              | G!<a>!<idx>                a copy of the points idx of object a
+              | K!<a>!<fmt>!<plain>        from_point_record / convert of object a
+              | A!<a>!<op>                 an operation (V / S / C as above) on object a
+              | F!<a>!<s>!<plain>          a.copy_fields_from(s)
+     -> <step>;<step>...   step = ok|err:E @ <cols of object 0> # <cols of object 1> # ...   (every object after the step) *)
 open Model
 
 let rec pos_of_int n = if n = 1 then XH else if n land 1 = 0 then XO (pos_of_int (n lsr 1)) else XI (pos_of_int (n lsr 1))
@@ -80,6 +89,15 @@ let parse_op t = match String.split_on_char '!' t with
   | ["C"; f; cols; plain] -> OCopy (z_of_string f, parse_cols cols, parse_plain plain)
   | _ -> failwith "op"
 
+let parse_wop t = match String.split_on_char '!' t with
+  | ["N"; f; cols] -> WNew (z_of_string f, parse_cols cols)
+  | ["L"; a; ch] -> WSlice (nat_of_int (int_of_string a), List.map nat_list (split_on '/' ch))
+  | ["G"; a; idx] -> WGather (nat_of_int (int_of_string a), nat_list idx)
+  | ["K"; a; f; plain] -> WConv (nat_of_int (int_of_string a), z_of_string f, parse_plain plain)
+  | "A" :: a :: rest -> WAssign (nat_of_int (int_of_string a), parse_op (String.concat "!" rest))
+  | ["F"; a; s; plain] -> WCopyFrom (nat_of_int (int_of_string a), nat_of_int (int_of_string s), parse_plain plain)
+  | _ -> failwith "wop"
+
 let dispatch cmd a =
   match cmd with
   | "sf_hist" ->
@@ -90,6 +108,12 @@ let dispatch cmd a =
         string_of_coq n ^ "=" ^ (match rec_read fmt r n with Some vs -> tok_of_zlist vs | None -> "none")) (fmt_names fmt)) in
     String.concat ";" (List.map (fun (r', e) ->
         (match e with None -> "ok" | Some e -> "err:" ^ err_name e) ^ "@" ^ tok_of_cols r' ^ "@" ^ reads r') (run fmt r ops))
+  | "sf_world" ->
+    let ops = List.map parse_wop (split_on ';' a.(0)) in
+    let objs w = let n = List.length (snd w) in
+      String.concat "#" (List.init n (fun i -> tok_of_cols (obj_read w (nat_of_int i)))) in
+    String.concat ";" (List.map (fun (w, e) ->
+        (match e with None -> "ok" | Some e -> "err:" ^ err_name e) ^ "@" ^ objs w) (wrun ([], []) ops))
   | "sf_cols" -> String.concat "," (List.map string_of_coq (fmt_cols (z_of_string a.(0))))
   | _ -> "unknown-command " ^ cmd
 
